@@ -1058,7 +1058,7 @@ func tagList(tags map[string]bool, order []string) string {
 	return strings.Join(tl, "+")
 }
 
-var e2eTags = []string{"colsets", "widehdr", "numtie", "zero", "compare", "nodelta", "missing", "tables", "levels2", "levels3", "levels4", "levels5", "multirow", "units", "warn"}
+var e2eTags = []string{"warn30", "colsets", "widehdr", "numtie", "zero", "compare", "nodelta", "missing", "tables", "levels2", "levels3", "levels4", "levels5", "multirow", "units", "warn"}
 
 func runScenario(sc scenario) {
 	myid := id
@@ -1157,6 +1157,21 @@ func e2eCases(r *hx.Rand) {
 	os.WriteFile(filepath.Join(dir, "c.txt"), []byte("BenchmarkX-8 1 50 B/op\nBenchmarkY-8 1 60 B/op\n"), 0o666)
 	runScenario(scenario{[]string{filepath.Join(dir, "a.txt"), filepath.Join(dir, "b.txt"), filepath.Join(dir, "c.txt")}, ".fullname", ".file",
 		map[string]bool{"colsets": true, "compare": true, "units": true}})
+	// C16-O witness: a unit declared assume=exact with 40 benchmarks whose values differ — every row
+	// gets its own "exact distribution expected, but values range from X to Y" (> 30 distinct warnings in one table)
+	{
+		var a, b strings.Builder
+		a.WriteString("Unit ns/op assume=exact\n")
+		b.WriteString("Unit ns/op assume=exact\n")
+		for k := 0; k < 40; k++ {
+			fmt.Fprintf(&a, "BenchmarkE%02d-8 1 %d ns/op\nBenchmarkE%02d-8 1 %d ns/op\n", k, 100+k, k, 200+2*k)
+			fmt.Fprintf(&b, "BenchmarkE%02d-8 1 %d ns/op\nBenchmarkE%02d-8 1 %d ns/op\n", k, 300+k, k, 300+k)
+		}
+		os.WriteFile(filepath.Join(dir, "exact-a.txt"), []byte(a.String()), 0o666)
+		os.WriteFile(filepath.Join(dir, "exact-b.txt"), []byte(b.String()), 0o666)
+		runScenario(scenario{[]string{"old=" + filepath.Join(dir, "exact-a.txt"), "new=" + filepath.Join(dir, "exact-b.txt")}, ".fullname", ".file",
+			map[string]bool{"compare": true, "warn30": true}})
+	}
 	n := hx.N(150, 3000)
 	for i := 0; i < n; i++ {
 		if i%2 == 0 {
@@ -1249,10 +1264,16 @@ func handCases(r *hx.Rand) {
 			}()
 			ncols, nrows := 1+r.Intn(3), 1+r.Intn(4)
 			nmsg := 1 + r.Intn(14)
+			wmax := 2
 			if i%3 == 0 {
 				nmsg = 10 + r.Intn(5)
 			}
+			if i%5 == 4 { // 30-45 distinct messages in one table
+				nmsg = 30 + r.Intn(16)
+				ncols, nrows, wmax = 2+r.Intn(2), 6+r.Intn(6), 4
+			}
 			warn := func(max int) []error {
+				max = max * wmax / 2
 				var out []error
 				for k := r.Intn(max + 1); k > 0; k-- {
 					out = append(out, fmt.Errorf("made-up warning number %d", 1+r.Intn(nmsg)))
@@ -1275,7 +1296,11 @@ func handCases(r *hx.Rand) {
 				cols = append(cols, colProj.Project(res))
 			}
 			for k := 0; k < nrows; k++ {
-				res := &benchfmt.Result{Name: benchfmt.Name([]string{"A", "Bb", "C/x=1", "Dddd"}[k])}
+				name := fmt.Sprintf("R%d", k)
+				if k < 4 {
+					name = []string{"A", "Bb", "C/x=1", "Dddd"}[k]
+				}
+				res := &benchfmt.Result{Name: benchfmt.Name(name)}
 				rows = append(rows, rowProj.Project(res))
 			}
 			t := &benchtab.Table{Unit: hx.Pick(r, []string{"sec/op", "B/op"}), Cols: cols, Rows: rows,
@@ -1307,6 +1332,9 @@ func handCases(r *hx.Rand) {
 			tag := "hand"
 			if nmsg >= 10 {
 				tag += "+manywarn"
+			}
+			if nmsg >= 30 {
+				tag += "+warn30"
 			}
 			runTable(t, tag)
 		}()
